@@ -180,6 +180,8 @@ pub struct AppBehaviour {
     pub control_status: Vec<u8>,
     /// the control handler mirrors successful operations into binary/analog output status points
     pub mirror_controls: bool,
+    /// a successful write_absolute_time clears the application's NEED_TIME indication
+    pub clear_need_time_on_write: bool,
 }
 
 impl Default for AppBehaviour {
@@ -194,6 +196,7 @@ impl Default for AppBehaviour {
             dead_bands: true,
             control_status: vec![0],
             mirror_controls: false,
+            clear_need_time_on_write: false,
         }
     }
 }
@@ -247,7 +250,11 @@ impl OutstationApplication for App {
     }
     fn write_absolute_time(&mut self, time: Timestamp) -> Result<(), RequestError> {
         self.0.push(Cb::WriteAbsoluteTime(time.raw_value()));
-        self.0.beh.lock().unwrap().write_time
+        let mut b = self.0.beh.lock().unwrap();
+        if b.write_time.is_ok() && b.clear_need_time_on_write {
+            b.iin.need_time = false;
+        }
+        b.write_time
     }
     fn get_application_iin(&self) -> ApplicationIin {
         self.0.beh.lock().unwrap().iin
